@@ -251,12 +251,29 @@ fn hkdf_run(digest: &str, salt: &[u8], ikm: &[u8], info: &[u8], l: usize, used: 
 fn pbkdf2_run(prf: u64, pw: &[u8], salt: &[u8], c: u32, l: usize) -> Vec<u8> {
     use cryptoxide::hmac::Hmac;
     use cryptoxide::pbkdf2::pbkdf2;
-    use cryptoxide::{sha1, sha2};
+    use cryptoxide::{blake2b, blake2s, ripemd160, sha1, sha2, sha3};
     let mut out = crate::rng::Aligned::dirty(0x3c3c ^ salt.len() as u64, l);
-    match prf {
+    // PRFs with every output length class: 20, 28, 32, 48, 64 bytes, and odd BLAKE2 sizes (33..63, 17..31) both through
+    // Hmac and as keyed-BLAKE2 MACs in their own right (the key of a BLAKE2 MAC is limited to 64 / 32 bytes)
+    let kb = &pw[..pw.len().min(64)];
+    let ks = &pw[..pw.len().min(32)];
+    let odd_b = 33 + (salt.len() + pw.len()) % 31;
+    let odd_s = 17 + (salt.len() + pw.len()) % 15;
+    match prf % 14 {
         0 => pbkdf2(&mut Hmac::new(sha1::Sha1::new(), pw), salt, c, &mut out),
         1 => pbkdf2(&mut Hmac::new(sha2::Sha256::new(), pw), salt, c, &mut out),
-        _ => pbkdf2(&mut Hmac::new(sha2::Sha512::new(), pw), salt, c, &mut out),
+        2 => pbkdf2(&mut Hmac::new(sha2::Sha512::new(), pw), salt, c, &mut out),
+        3 => pbkdf2(&mut Hmac::new(sha2::Sha224::new(), pw), salt, c, &mut out),
+        4 => pbkdf2(&mut Hmac::new(sha2::Sha384::new(), pw), salt, c, &mut out),
+        5 => pbkdf2(&mut Hmac::new(sha2::Sha512Trunc224::new(), pw), salt, c, &mut out),
+        6 => pbkdf2(&mut Hmac::new(sha3::Sha3_384::new(), pw), salt, c, &mut out),
+        7 => pbkdf2(&mut Hmac::new(sha3::Sha3_224::new(), pw), salt, c, &mut out),
+        8 => pbkdf2(&mut Hmac::new(ripemd160::Ripemd160::new(), pw), salt, c, &mut out),
+        9 => pbkdf2(&mut Hmac::new(blake2b::Blake2b::new(odd_b), pw), salt, c, &mut out),
+        10 => pbkdf2(&mut Hmac::new(blake2s::Blake2s::new(odd_s), pw), salt, c, &mut out),
+        11 => pbkdf2(&mut blake2b::Blake2b::new_keyed(odd_b, kb), salt, c, &mut out),
+        12 => pbkdf2(&mut blake2s::Blake2s::new_keyed(odd_s, ks), salt, c, &mut out),
+        _ => pbkdf2(&mut Hmac::new(sha3::Keccak512::new(), pw), salt, c, &mut out),
     }
     out.to_vec()
 }
@@ -302,7 +319,7 @@ impl Scenario for KdfProbe {
                 3 | 4 | 5 => {
                     let c = match rng.below(6) { 0 => 1, 1 => 2, 2 => 3, 3 if tier == Tier::Thorough => rng.range(100, 1000), _ => rng.range(1, 20) };
                     let l = match rng.below(6) { 0 => 1, 1 => 20, 2 => 21, 3 => 64, 4 => 65, _ => rng.range(1, 200) as usize };
-                    t.ops.push(Op::new(0, D_PBKDF2).arg(rng.below(3) | (c << 8)).len(l).seed(rng.data_seed()).off(rng.below(40) as u8));
+                    t.ops.push(Op::new(0, D_PBKDF2).arg(rng.below(14) | (c << 8)).len(l).seed(rng.data_seed()).off(rng.below(40) as u8));
                 }
                 6 => {
                     let deep = rng.chance(1, if tier == Tier::Thorough { 4 } else { 12 });
